@@ -46,7 +46,13 @@ func RunOnce(body func(), prefix []int, cfg Config) *Exec {
 
 // Options configure an exploration.
 type Options struct {
-	Bound    int // preemption bound; < 0 = unbounded
+	Bound int // preemption bound; < 0 = unbounded
+	// SwitchBound limits the number of non-default THREAD choices at points where the thread that
+	// ran last cannot continue (it blocked or finished): such context switches are free under
+	// preemption bounding, and their number is what makes many-thread scenarios explode. The
+	// default choice there is the lowest thread id. <= 0 = unlimited. Choices between select arms
+	// or rendez-vous partners of the same thread are never limited.
+	SwitchBound int
 	Cfg      Config
 	Deadline time.Time
 	MaxExecs int64
@@ -57,6 +63,9 @@ type Options struct {
 	// AllowDeadlock: a blocked main thread at the end is an outcome, not a failure.
 	AllowDeadlock bool
 	AllowHorizon  bool
+	// Ignore: failures for which it returns true (recorded known findings) are counted in
+	// Report.Ignored and the exploration continues below them.
+	Ignore func(f *Failure) bool
 }
 
 // Found is a failing execution.
@@ -80,13 +89,15 @@ type Report struct {
 	Horizons    int64            `json:"horizons"`
 	Deadlocks   int64            `json:"deadlocks"`
 	SampleTrace []int            `json:"sample_choices,omitempty"`
+	Ignored     map[string]int64 `json:"ignored,omitempty"`
 }
 
 type frame struct {
-	prefix []int
-	gen    int // number of deviations from default choices
-	cost   int // preemptions spent in prefix
-	owned  bool
+	prefix   []int
+	gen      int // number of deviations from default choices
+	cost     int // preemptions spent in prefix
+	switches int // non-default free thread switches spent in prefix
+	owned    bool
 }
 
 // Explore enumerates, depth first, every execution of body whose number of preemptions does not
@@ -149,6 +160,15 @@ func Explore(body func(), opt Options) Report {
 		if fail == nil && len(x.Misuse) > 0 {
 			fail = &Failure{Sig: "misuse", Detail: strings.Join(x.Misuse, "; ")}
 		}
+		if fail != nil && opt.Ignore != nil && opt.Ignore(fail) {
+			if count {
+				if rep.Ignored == nil {
+					rep.Ignored = map[string]int64{}
+				}
+				rep.Ignored[fail.Sig]++
+			}
+			fail = nil
+		}
 		if fail != nil && count {
 			// determinism self-check: the same schedule must fail the same way, every time
 			ch := x.Choices()
@@ -201,7 +221,14 @@ func Explore(body func(), opt Options) Report {
 				if opt.Bound >= 0 && c > opt.Bound {
 					continue
 				}
-				child := frame{gen: f.gen + 1, cost: c, owned: f.owned}
+				sw := f.switches
+				if !p.Preempt[alt] && p.OtherThread[alt] {
+					sw++
+				}
+				if opt.SwitchBound > 0 && sw > opt.SwitchBound {
+					continue
+				}
+				child := frame{gen: f.gen + 1, cost: c, switches: sw, owned: f.owned}
 				if !f.owned && child.gen == opt.SplitDepth {
 					child.owned = splitCounter%opt.Shards == opt.Shard
 					splitCounter++
